@@ -4,6 +4,7 @@ import (
 	"encoding/json"
 	"fmt"
 	"math"
+	"os"
 	"regexp"
 	"strings"
 	"time"
@@ -315,6 +316,58 @@ func c08Run(c *engine.Ctx) {
 		}
 	}
 	rec(nil)
+	// large inputs: sizes around the 16 KiB window and the 4 KiB line buffer x line terminators x shapes x transports x modes
+	c.Sub("cli-large-inputs")
+	li := 0
+	for _, unit := range []string{"0", `"s"`, "[1,2]", `{"a":null}`, ""} {
+		for _, nl := range []string{"\n", "\r\n", "\r", " ", "\r\r", "\n\r"} {
+			for _, size := range []int{4095, 4096, 4097, 12288, 16383, 16384, 16385, 20000, 32768, 40000, 70000} {
+				for _, tail := range []string{"", "]", ":", "\r", "\"x"} {
+					li++
+					if !c.MineIdx(li) || c.Expired() {
+						continue
+					}
+					if unit == "" && nl == " " {
+						continue
+					}
+					text := strings.Repeat(unit+nl, size/len(unit+nl)+1)[:size] + tail
+					for _, args := range [][]string{{"-c", "."}, {"--stream", "-c", "."}, {"-s", "length"}, {"-R", "length"}, {"-Rs", "length"}, {"-n", "[inputs] | length"}, {".[0]?"}} {
+						for _, tr := range []int{-1, 0, 1000, 16384} { // file, pipe whole, pipe in chunks
+							key := fmt.Sprintf("unit=%q nl=%q size=%d tail=%q args=%q transport=%d", unit, nl, size, tail, args, tr)
+							if !c.Guard(key) {
+								continue
+							}
+							c.Eval()
+							var r CLIResult
+							if tr == -1 {
+								name := fmt.Sprintf("%s/c08_large_%d.json", WorkDir(), c.Shard)
+								os.WriteFile(name, []byte(text), 0o644)
+								r = RunCLIString(append(append([]string{}, args...), name), "")
+							} else {
+								r = RunCLI(args, &ChunkReader{Data: []byte(text), N: tr})
+							}
+							c.Unguard()
+							p := ""
+							switch {
+							case r.Panic != "":
+								p = "panic: " + r.Panic
+							case r.Status < 0 || r.Status > 5:
+								p = fmt.Sprintf("undocumented exit status %d", r.Status)
+							case looksLikeCrash(r.Stderr):
+								p = "stderr looks like a Go crash: " + r.Stderr[:min(200, len(r.Stderr))]
+							}
+							if p != "" {
+								c.Violation(key, "cli-crash", map[string]any{"why": p, "unit": unit, "nl": nl, "size": size, "tail": tail, "args": args, "transport": tr})
+							}
+							c.Outcome(fmt.Sprintf("large: status:%d", r.Status))
+							c.DistinctN(1)
+						}
+					}
+				}
+			}
+		}
+	}
+	c.Sample(map[string]any{"input": "\"0\\r\" repeated to 16384 bytes, then \":\"", "args": "-c . | --stream -c . | -s length | -R length | -Rs length | -n [inputs]|length", "transports": "file, pipe whole, pipe in chunks of 1000 and 16384"})
 	c.Count("seconds:cli-arguments", int64(time.Since(t0).Seconds()))
 	c.Sample(map[string]any{"args": []string{"--arg", "-s", "f.json"}, "stdins": len(stdins)})
 }
@@ -473,6 +526,27 @@ func c08Replay(v *engine.Violation) (bool, string) {
 		}
 		p := c08Exercise(d["query"].(string), []any{nil, univ.J(`[1,[2,"a"],{"a":null}]`), univ.J(`{"a":[1,2],"b":"x"}`)})
 		return p != "", p
+	case "cli-large-inputs":
+		WorkDir()
+		defer CleanupWorkDir()
+		var args []string
+		for _, a := range d["args"].([]any) {
+			args = append(args, a.(string))
+		}
+		unit, nl, size, tail, tr := d["unit"].(string), d["nl"].(string), int(d["size"].(float64)), d["tail"].(string), int(d["transport"].(float64))
+		text := strings.Repeat(unit+nl, size/len(unit+nl)+1)[:size] + tail
+		var r CLIResult
+		if tr == -1 {
+			name := WorkDir() + "/c08_large_replay.json"
+			os.WriteFile(name, []byte(text), 0o644)
+			r = RunCLIString(append(args, name), "")
+		} else {
+			r = RunCLI(args, &ChunkReader{Data: []byte(text), N: tr})
+		}
+		if r.Panic != "" || r.Status < 0 || r.Status > 5 || looksLikeCrash(r.Stderr) {
+			return true, fmt.Sprintf("status %d panic %q stderr %q", r.Status, r.Panic, head(r.Stderr, 300))
+		}
+		return false, "no crash"
 	case "cli-arguments":
 		WorkDir()
 		defer CleanupWorkDir()
